@@ -148,3 +148,16 @@ func VerifSTJsonSymbolic() {
 	}
 	vrt.Reach("st/sym-done")
 }
+
+// VerifSTFloatConv: float conversions of symbolic integers (engine self-test).
+func VerifSTFloatConv() {
+	d := vrt.Int64("d")
+	vrt.Assume(d >= 0 && d < 100000000000000)
+	sec := d / 1000000000
+	nsec := d % 1000000000
+	f := float64(sec) + float64(nsec)/1e9
+	u := uint32(f) * 1000
+	vrt.Observe("u", u)
+	vrt.Assert(u == uint32(d/1000000000)*1000, "st/float-seconds-truncation")
+	vrt.Reach("st/float-done")
+}
